@@ -77,7 +77,7 @@ def hyps_for(E, fv, ob):
     return hs
 
 
-def verify(quals, sidecar_names=None, repo=None, timeout_ms=10000, keep_smt=False, E=None):
+def verify(quals, sidecar_names=None, repo=None, timeout_ms=10000, keep_smt=False, E=None, second_opinion=False):
     E = E or build(sidecar_names, repo)
     results = []
     items = []
@@ -147,10 +147,31 @@ def verify(quals, sidecar_names=None, repo=None, timeout_ms=10000, keep_smt=Fals
             elif any(st == 'undecided' for st in sts) and not any(st == 'failed' for st in sts):
                 out[key] = dict(out[key], status='undecided', reason='sub-goal timeout',
                                 secs=out[key]['secs'] + sum(out2[rk]['secs'] for rk in rks))
+    # cvc5 (E-matching on the same triggers): (a) takes the obligations on which z3's E-matching gave up -- an `unsat` from
+    # either solver is a proof; (b) second opinion on the obligations z3 proved, when asked for (thorough tier): a `sat`
+    # there is a disagreement between the back ends and is reported as an engine error
+    cv_items = []
+    for key, (fr, ob, text) in index.items():
+        r = out[key]
+        if ob.kind == 'cover':
+            continue
+        if (r['status'] == 'failed' and r['res'] == 'unknown') or (second_opinion and r['status'] == 'proved'
+                                                                   and not r['reason'].startswith('split')):
+            cv_items.append((key, text))
+    cv = solver.cvc5_batch(cv_items, timeout_s=max(5, min(30, timeout_ms // 2000))) if cv_items else {}
+    for key, (ans, secs) in cv.items():
+        r = out[key]
+        if r['status'] == 'failed' and ans == 'unsat':
+            out[key] = dict(r, status='proved', res='unsat', reason='z3: unknown; cvc5: unsat', secs=r['secs'] + secs,
+                            backend='cvc5-1.0 (after z3 gave up)')
+        elif r['status'] == 'proved':
+            out[key] = dict(r, cvc5=ans)
     for key, (fr, ob, text) in index.items():
         r = out[key]
         d = dict(name=ob.name, kind=ob.kind, status=r['status'], secs=round(r['secs'], 3), reason=r['reason'],
                  lineno=ob.lineno, backend=r['backend'], detail=ob.detail)
+        if 'cvc5' in r:
+            d['cvc5'] = r['cvc5']
         if r['status'] not in ('proved', 'ok') or keep_smt:
             d['model'] = r['model']
             fr.smt[len(fr.obligations)] = text
